@@ -353,6 +353,16 @@ def resolve(model: RefDir, op):
                 **({'bad': 'dup_dimension'} if expect == 'reject' else {})}
     if kind == 'scaled_unit':
         tn = _pick(model.types_with_ref(), r[0])
+        if getattr(model, 'noref_scaled', False) and r[5] % 4 == 0:
+            # a multiple of a unit of a base type WITHOUT reference unit:
+            # convertible to the units built on the same unit by its
+            # scale, to the others not at all
+            cands = [x for x in types if model.types[x]['base'] and
+                     model.types[x]['ref'] is None and
+                     not model.types[x]['money'] and
+                     not model.types[x]['catalogue'] and
+                     model.types[x]['units']]
+            tn = _pick(cands, r[0]) or tn
         if tn is None:
             return None
         t = model.types[tn]
@@ -814,7 +824,8 @@ def apply(model: RefDir, act, info=None):
         model.types[act['name']]['parent'] = act.get('parent')
     elif a == 'scaled_unit':
         p = model.units[act['parent']]
-        f = p['factor'] * num_value(act['k'])
+        f = None if p['factor'] is None else \
+            p['factor'] * num_value(act['k'])
         model.add_unit(act['sym'], act['type'], f, 'scaled',
                        bvec=dict(p['bvec']),
                        num=p['num'] * num_value(act['k']))
